@@ -137,6 +137,8 @@ class Engine:
         self.inline_filter = None  # callable(path) -> bool: may this local callee be inlined
         self.on_call = None  # hook(eng, st, frame, f, args, site) -> outcomes or None
         self.trace = False
+        self.key_all = False  # full path sensitivity (small functions only)
+        self.keyed_events = set()
         self.counters = set()  # loop-head phi symbols that are loop counters (counter axiom)
         self.sym_terms = {}  # sym -> term description (div/mod/mul/cast provenance) for TERM rules
         self.impl_index = {}
@@ -980,11 +982,11 @@ class Engine:
             if isinstance(ev, Enum):
                 vi = self.T.variant_by_discr(ev.ty, c[3])
                 want = (c[4] == truth)
-                keep = tuple(z for z in ev.variants if (z[0] == vi) == want)
+                keep = {z[0] for z in ev.variants if (z[0] == vi) == want}
                 if not keep:
                     raise Dead()
-                self.M.write_path(st, c[1], c[2], Enum(ev.ty, keep, ev.name))
-                return ("variant", ev.name, "|".join(self.T.variant_name(ev.ty, z[0]) for z in keep))
+                self.M.write_path(st, c[1], c[2], self.M.refine_enum(st, ev, keep))
+                return ("variant", ev.name, "|".join(self.T.variant_name(ev.ty, z) for z in sorted(keep)))
             return None
         if k == "cmp":
             cc = c if truth else self.neg_cond(c)
